@@ -264,10 +264,45 @@ def work(chunk):
     return res
 
 
+def library_jumps():
+    """Every bundled procedure of the live ecb.b09 (they are part of every emitted program that outputs its dependencies):
+    each line number a GOTO / GOSUB / ON..GOTO / ON ERROR GOTO / THEN <n> mentions must label a line of the same procedure."""
+    import os
+    text = open(os.path.join(core.REPO, "coco", "resources", "ecb.b09"), encoding="latin-1").read()
+    v = []
+    n = 0
+    for p in S.parse(re.sub(r"(?i)STRING<<>>", "STRING", text)):
+        stmts = list(S.walk(p.body))
+        labels = [s.label for s in stmts if s.label is not None] + [s.a.get("next_label") for s in stmts if s.kind == "for" and s.a.get("next_label")]
+        targets = []
+        for s in stmts:
+            if s.kind in ("goto", "gosub", "ifgoto"):
+                targets.append(s.a["target"])
+            elif s.kind == "on":
+                targets += s.a["targets"]
+            elif s.kind == "onerror" and s.a["target"] is not None:
+                targets.append(s.a["target"])
+        n += 1
+        for l in set(labels):
+            if labels.count(l) > 1:
+                v.append(("duplicate-label", p.name, f"bundled procedure {p.name}: label {l} appears {labels.count(l)} times"))
+        for t in targets:
+            if t not in labels:
+                v.append(("dangling-jump", p.name, f"bundled procedure {p.name}: jump to {t} but its labels are {sorted(set(labels))}"))
+    return n, v
+
+
 def run(run):
     run.rule = ("programs = line-number sets x at most 2 reference-bearing constructs x all targets (defined, self, 0, missing) x {filter} x {add_suffix}; "
                 "distinct = distinct source texts; non-trivial = contains >= 1 reference")
     run.assumptions = ["BASIC09's error function is ERR (token table of the BASIC09 binary); 'errnum' is an ordinary undeclared variable"]
+    nlib, vlib = library_jumps()
+    run.states += nlib
+    run.transitions += nlib
+    run.evaluations += nlib
+    run.count("library_procedures", nlib)
+    for sym, pname, detail in vlib:
+        run.violation(sym, {"library", "proc:" + pname}, {"library": pname}, detail)
     cases = gen(run)
     i = 0
     nontriv = 0
@@ -299,5 +334,8 @@ def run(run):
 
 
 def replay(case):
+    if case.get("library"):
+        n, v = library_jumps()
+        return {"violations": [list(x) for x in v if x[1] == case["library"]]}
     v = judge(case, case["filter"], case["suffix"])
     return {"violations": [list(x) for x in v]}
